@@ -37,65 +37,84 @@ func c19RateSpecs(tier string) []*h.SeqSpec {
 	var specs []*h.SeqSpec
 	for _, store := range []string{"mem"} {
 		for _, n := range limits {
-			n := n
-			mdl := func(w *h.World) *c19Model { return w.M.(*c19Model) }
-			var ops []h.Op
-			req := func(name, ip, remote, xff string) {
-				ops = append(ops, h.Op{Name: name, Do: func(w *h.World) []h.Violation {
-					hd := map[string]string{}
-					if xff != "" {
-						hd["X-Forwarded-For"] = xff
-					}
-					r := w.Do(h.Req{Method: "GET", Path: "/v2/", Remote: remote, Header: hd})
-					m := mdl(w)
-					now := vrt.NowNanos()
-					b := m.B[ip]
-					if b == nil || now-b.First > int64(time.Second) {
-						b = &c19Bucket{First: now, Count: 0}
-						m.B[ip] = b
-					}
-					b.Count++
-					wantServed := b.Count <= n
-					var vs []h.Violation
-					switch {
-					case wantServed && r.Status != 200:
-						vs = append(vs, h.V("other-requests-unaffected", "request-within-limit-refused", "request %d of %s in its accounting second (limit %d) answered %s", b.Count, ip, n, r))
-					case !wantServed && r.Status != 429:
-						vs = append(vs, h.V("limit-enforced", "request-over-limit-served", "request %d of %s in its accounting second (limit %d) answered %s", b.Count, ip, n, r))
-					case !wantServed && r.H.Get("Retry-After") == "":
-						vs = append(vs, h.V("retry-after", "no-retry-after-on-429", "429 without Retry-After"))
-					}
-					return vs
-				}})
-			}
-			req("request from A", "10.0.0.1", "10.0.0.1:1111", "")
-			req("request from B", "10.0.0.2", "10.0.0.2:2222", "")
-			req("request from A through a proxy (X-Forwarded-For)", "10.0.0.1", "10.9.9.9:1", "10.0.0.1")
-			for _, d := range []time.Duration{400 * time.Millisecond, time.Second, time.Second + 1, 11 * time.Second} {
-				d := d
-				ops = append(ops, h.Op{Name: fmt.Sprintf("advance %v", d), Do: func(w *h.World) []h.Violation { vrt.Advance(d, false); return nil }})
-			}
-			specs = append(specs, &h.SeqSpec{
-				Name: fmt.Sprintf("c19-ratelimit-%s-%d", store, n),
-				Conf: &h.Conf{Name: store, Store: store, Mod: func(c *config.Config) { c.API.RateLimit = n }},
-				Init: func(w *h.World) { w.M = &c19Model{B: map[string]*c19Bucket{}} },
-				Ops:  ops,
-				Model: func(w *h.World) string {
-					m := mdl(w)
-					var parts []string
-					for _, k := range h.SortedKeys(m.B) {
-						age := vrt.NowNanos() - m.B[k].First
-						if age > int64(time.Second) {
-							continue // an expired window has no future effect
+			for _, family := range []string{"", "addresses"} {
+				n := n
+				mdl := func(w *h.World) *c19Model { return w.M.(*c19Model) }
+				var ops []h.Op
+				req := func(name, ip, remote, xff string) {
+					ops = append(ops, h.Op{Name: name, Do: func(w *h.World) []h.Violation {
+						hd := map[string]string{}
+						if xff != "" {
+							hd["X-Forwarded-For"] = xff
 						}
-						parts = append(parts, fmt.Sprintf("%s:%d:%d", k, age, m.B[k].Count))
-					}
-					return strings.Join(parts, ",")
-				},
-				NonTriv:  func(w *h.World) bool { return len(mdl(w).B) > 0 },
-				MaxDepth: depth,
-				Chunk:    20,
-			})
+						r := w.Do(h.Req{Method: "GET", Path: "/v2/", Remote: remote, Header: hd})
+						m := mdl(w)
+						now := vrt.NowNanos()
+						b := m.B[ip]
+						if b == nil || now-b.First > int64(time.Second) {
+							b = &c19Bucket{First: now, Count: 0}
+							m.B[ip] = b
+						}
+						b.Count++
+						wantServed := b.Count <= n
+						var vs []h.Violation
+						switch {
+						case wantServed && r.Status != 200:
+							vs = append(vs, h.V("other-requests-unaffected", "request-within-limit-refused", "request %d of %s in its accounting second (limit %d) answered %s", b.Count, ip, n, r))
+						case !wantServed && r.Status != 429:
+							vs = append(vs, h.V("limit-enforced", "request-over-limit-served", "request %d of %s in its accounting second (limit %d) answered %s", b.Count, ip, n, r))
+						case !wantServed && r.H.Get("Retry-After") == "":
+							vs = append(vs, h.V("retry-after", "no-retry-after-on-429", "429 without Retry-After"))
+						}
+						return vs
+					}})
+				}
+				steps := []time.Duration{400 * time.Millisecond, time.Second, time.Second + 1, 11 * time.Second}
+				specDepth := depth
+				if family == "addresses" {
+					// "per source IP": the port is not part of the client's identity, IPv6 addresses that share leading
+					// groups are different clients, the first element of an X-Forwarded-For list is the client
+					req("request from A", "10.0.0.1", "10.0.0.1:1111", "")
+					req("request from A, another port", "10.0.0.1", "10.0.0.1:40000", "")
+					req("request from [2001:db8::1]", "[2001:db8::1]", "[2001:db8::1]:40000", "")
+					req("request from [2001:db8::1], another port", "[2001:db8::1]", "[2001:db8::1]:40001", "")
+					req("request from [2001:db8::2]", "[2001:db8::2]", "[2001:db8::2]:40000", "")
+					req("request from [::1]", "[::1]", "[::1]:7", "")
+					req("request from 10.0.0.10 (A is a prefix of it)", "10.0.0.10", "10.0.0.10:1111", "")
+					req("request from B through two proxies (X-Forwarded-For list)", "10.0.0.2", "10.9.9.9:1", "10.0.0.2, 10.8.8.8")
+					steps = []time.Duration{time.Second + 1}
+					specDepth = depth - 3
+				} else {
+					req("request from A", "10.0.0.1", "10.0.0.1:1111", "")
+					req("request from B", "10.0.0.2", "10.0.0.2:2222", "")
+					req("request from A through a proxy (X-Forwarded-For)", "10.0.0.1", "10.9.9.9:1", "10.0.0.1")
+				}
+				for _, d := range steps {
+					d := d
+					ops = append(ops, h.Op{Name: fmt.Sprintf("advance %v", d), Do: func(w *h.World) []h.Violation { vrt.Advance(d, false); return nil }})
+				}
+				specs = append(specs, &h.SeqSpec{
+					Name: fmt.Sprintf("c19-ratelimit-%s%s-%d", store, map[string]string{"": "", "addresses": "-addresses"}[family], n),
+					Conf: &h.Conf{Name: store, Store: store, Mod: func(c *config.Config) { c.API.RateLimit = n }},
+					Init: func(w *h.World) { w.M = &c19Model{B: map[string]*c19Bucket{}} },
+					Ops:  ops,
+					Model: func(w *h.World) string {
+						m := mdl(w)
+						var parts []string
+						for _, k := range h.SortedKeys(m.B) {
+							age := vrt.NowNanos() - m.B[k].First
+							if age > int64(time.Second) {
+								continue // an expired window has no future effect
+							}
+							parts = append(parts, fmt.Sprintf("%s:%d:%d", k, age, m.B[k].Count))
+						}
+						return strings.Join(parts, ",")
+					},
+					NonTriv:  func(w *h.World) bool { return len(mdl(w).B) > 0 },
+					MaxDepth: specDepth,
+					Chunk:    20,
+				})
+			}
 		}
 	}
 	return specs
@@ -263,7 +282,7 @@ func init() {
 	delete(h.Checks, "C19rate")
 	h.Checks["C19"] = func(tier string) int {
 		rep := h.NewReport("C19", tier, "model_checking")
-		rep.Rule = "part 1 (rate limit): breadth-first search over all sequences (bounded depth) of requests from address A, from B and from A through X-Forwarded-For, and virtual time steps 400 ms, 1 s, 1 s + 1 ns, 11 s, for RateLimit in {1,2,3}, against the documented fixed window (more than one second since the first counted request starts a new window). " +
+		rep.Rule = "part 1 (rate limit): breadth-first search over all sequences (bounded depth) of requests from address A, from B and from A through X-Forwarded-For, and virtual time steps 400 ms, 1 s, 1 s + 1 ns, 11 s, for RateLimit in {1,2,3}, against the documented fixed window (more than one second since the first counted request starts a new window); a second family varies the client address (another port of the same address, IPv6 addresses with shared leading groups, an address that is a prefix of another, an X-Forwarded-For list): one window per source IP. " +
 			"part 1b (defaults): config.SetDefaults on every {unset,true,false} assignment of the 9 boolean fields (3^9) with the numeric fields all unset / all set, and on every assignment of the 7 numeric fields to {0, negative, positive} values with three boolean patterns, against the documented defaults (an explicit non-zero value is never overridden). " +
 			"part 2 (flag space, inside a build of cmd/olareg with the real cobra command): every assignment of the 8 boolean serve flags to true / false plus each flag alone not given (quick: 273 assignments) or to {not given, true, false} (thorough: 6561) x store type {dir, mem}: the configuration the server holds and a fixed probe script (reads, referrers, blob upload, session, manifest and artifact push, manifest and blob delete, directory snapshot) are compared with a table written from the flag help texts and config.go; warnings (0-2), rate-limit, gc durations (not given / negative / positive), 'collection disabled' surviving shutdown; " +
 			"part 3 (termination): a real SIGTERM after every prefix of a 6-request push history (incl. an open session): serve returns nil, the store is closed, a second run serves everything acknowledged from a valid layout; non-trivial = configuration points"
